@@ -15,6 +15,7 @@ import (
 	"os"
 	"sort"
 	"strings"
+	"time"
 
 	"github.com/idena-network/idena-go/blockchain/fee"
 	"github.com/idena-network/idena-go/blockchain/types"
@@ -293,6 +294,15 @@ func (r *c14run) dumpLine(d *mempool.VerifPoolDump) string {
 	return fmt.Sprintf("E %s P %s A %s D %s K %s S %d", r.groups(d.Exec, false), r.groups(d.Pend, true), idsTok(all), def, idsTok(known), b2i(d.Syncing))
 }
 
+func (r *c14run) sortedKeys(m map[common.Address][]*types.Transaction) []common.Address {
+	var ks []common.Address
+	for a := range m {
+		ks = append(ks, a)
+	}
+	sort.Slice(ks, func(i, j int) bool { return r.w.idx[ks[i]] < r.w.idx[ks[j]] })
+	return ks
+}
+
 func (r *c14run) stale(tx *types.Transaction) bool {
 	st := r.w.B.app.State
 	a, _ := types.Sender(tx)
@@ -315,7 +325,8 @@ func (r *c14run) afterOp(before *mempool.VerifPoolDump, block []*types.Transacti
 	}
 	// container coherence
 	cnt := 0
-	for a, q := range d.Exec {
+	for _, a := range r.sortedKeys(d.Exec) {
+		q := d.Exec[a]
 		if len(q) == 0 {
 			r.failf("C14:lookup-incoherent", "empty executable entry for sender %d", r.w.idx[a])
 		}
@@ -332,7 +343,8 @@ func (r *c14run) afterOp(before *mempool.VerifPoolDump, block []*types.Transacti
 			}
 		}
 	}
-	for a, q := range d.Pend {
+	for _, a := range r.sortedKeys(d.Pend) {
+		q := d.Pend[a]
 		if len(q) == 0 {
 			r.failf("C14:lookup-incoherent", "empty pending entry for sender %d", r.w.idx[a])
 		}
@@ -347,7 +359,8 @@ func (r *c14run) afterOp(before *mempool.VerifPoolDump, block []*types.Transacti
 		r.failf("C14:lookup-incoherent", "hash index has %d entries, short index %d, queues hold %d", len(d.All), d.Short, cnt)
 	}
 	// exported lookups
-	for id, tx := range r.byID {
+	for id := 1; id <= len(r.byID); id++ {
+		tx := r.byID[id]
 		got := pool.GetTx(tx.Hash()) != nil
 		if got != inAll[tx.Hash()] {
 			r.failf("C14:lookup-incoherent", "GetTx(%d)=%v but index membership %v", id, got, inAll[tx.Hash()])
@@ -371,6 +384,15 @@ func (r *c14run) afterOp(before *mempool.VerifPoolDump, block []*types.Transacti
 	for _, tx := range block {
 		if pool.GetTx(tx.Hash()) != nil {
 			r.failf("C14:block-tx-remains", "transaction %d of the applied block is still in the pool", r.label(tx))
+		}
+	}
+	// observation: transactions of blocks applied while syncing that StopSync (inside the sessions) leaves in the pool
+	if before != nil && !r.clean {
+		for _, tx := range d.All {
+			if r.included[r.label(tx)] {
+				r.hit("observation:included-tx-kept-in-session")
+				break
+			}
 		}
 	}
 	// accepted stays retrievable until included or made invalid
@@ -411,7 +433,8 @@ func (r *c14run) afterOp(before *mempool.VerifPoolDump, block []*types.Transacti
 	// gap-free, continues the committed nonce and lies in the current epoch (theorem exec_consecutive)
 	if r.clean {
 		st := r.w.B.app.State
-		for a, q := range d.Exec {
+		for _, a := range r.sortedKeys(d.Exec) {
+			q := d.Exec[a]
 			cur := st.GetNonce(a)
 			if st.GetEpoch(a) < st.Epoch() {
 				cur = 0
@@ -498,6 +521,8 @@ func (r *c14run) badLists(txs []*types.Transaction) (badM, badI []int) {
 			badI = append(badI, id)
 		}
 	}
+	sort.Ints(badM)
+	sort.Ints(badI)
 	return
 }
 
@@ -797,6 +822,10 @@ func c14emitCase(c *hx.Ctx, cs *c14case, next func(r *c14run, i int) *c14op) err
 		return err
 	}
 	if r.fail != nil {
+		c.Hit("oracle-failure:" + r.fail.sig)
+		if !c.Distinct("failure-signature:" + r.fail.sig) {
+			return nil // one shrunk witness per signature; further cases are only counted
+		}
 		small := c14shrink(*cs, r.fail.sig)
 		detail := r.fail.detail
 		if r2, err := c14play(&small, c14replayNext(&small), nil, nil); err == nil && r2.fail != nil {
@@ -815,6 +844,16 @@ func init() {
 			b, err := os.ReadFile(c.Replay)
 			if err != nil {
 				return err
+			}
+			var conc struct {
+				Replay struct {
+					Concurrent bool  `json:"concurrent"`
+					Seed       int64 `json:"seed"`
+				} `json:"replay"`
+			}
+			if json.Unmarshal(b, &conc) == nil && conc.Replay.Concurrent {
+				c.Rep.Evaluations = 1
+				return c14concurrent(c, 10*time.Second, conc.Replay.Seed)
 			}
 			var wrap struct {
 				Replay c14case `json:"replay"`
@@ -858,6 +897,12 @@ func init() {
 			}
 			if i < 2 {
 				c.Sample(cs)
+			}
+		}
+		// observation only (runtime fact, outside the theorems): real concurrency, thorough tier
+		if c.Tier == "thorough" || os.Getenv("VERIF_C14_CONC") != "" {
+			if err := c14concurrent(c, 15*time.Second, c.Seed); err != nil {
+				return fmt.Errorf("concurrency observation: %v", err)
 			}
 		}
 		return nil
